@@ -60,6 +60,8 @@ struct World {
   using LF = integration::LinearForm<OpE>;
   std::optional<support::Grid<T>> grid;
   std::unique_ptr<const S2> a, b;
+  std::optional<support::Grid<T>> biggrid;
+  std::unique_ptr<const S2> big;  // a long spline (70 intervals): size-dependent strategies and caches
   std::unique_ptr<const BSplineGenerator<T>> gen;
   std::unique_ptr<const OpE> opexpr;
   std::unique_ptr<const BF> bf;
@@ -84,6 +86,12 @@ struct World {
     bf.reset(new BF(Dx<1>{}, X<1>{} * Dx<1>{} + SplineOperator{*b}));
     lf.reset(new LF(X<1>{} * Dx<1>{} + SplineOperator{*b}));
     sup.reset(new support::Support<T>(*grid, 1, 4));
+    {
+      std::vector<T> bp;
+      for (int i = 0; i <= 70; i++) bp.push_back(mk<T>(-10 + 0.25 * i + 0.001 * i * i));
+      biggrid.emplace(bp);
+      big.reset(new S2(make(*biggrid, 0, 71, 3)));
+    }
     for (int t = 1; t < VF_MAXT; t++) {
       owned[t].reset(new S2(*a));
       owned_sup[t].reset(new support::Support<T>(*sup));
@@ -93,6 +101,7 @@ struct World {
   }
   void teardown() {
     for (int t = 1; t < VF_MAXT; t++) { owned[t].reset(); owned_sup[t].reset(); on_copy[t].reset(); }
+    big.reset(); biggrid.reset();
     sup.reset(); lf.reset(); bf.reset(); opexpr.reset(); gen.reset(); b.reset(); a.reset(); grid.reset();
   }
   uint64_t op(int o, int tid) {
@@ -104,6 +113,21 @@ struct World {
         d.val((*a)(mk<T>(-5)));
         d.val(a->front());
         d.val(b->back());
+        // a long shared spline, evaluated in intervals that depend on the thread
+        // (same set of abscissae for every thread, visited in an order that depends on the thread; the digest is
+        // order-independent so that it can be compared with the sequential run)
+        {
+          static const double X[5] = {-9.9, -3.7, 1.3, 5.3, -9.85};
+          uint64_t acc = 0;
+          for (int k = 0; k < 5; k++) {
+            int idx = (k + 2 * tid) % 5;
+            Dig e;
+            e.u((uint64_t)idx);
+            e.val((*big)(mk<T>(X[idx])));
+            acc += e.h;
+          }
+          d.u(acc);
+        }
         break;
       }
       case 1: {  // copy + destroy
